@@ -18,6 +18,7 @@ func init() {
 			"(R2) each TRUE edge stores the matching Status_HaltedOn… constant and returns exactly the sentinel errHaltedForSafety (not a wrapped error); " +
 			"(R3) controller.run compares synchronize's error with that sentinel (== or errors.Is) and on the true edge nothing but waiting for ctx.Done() and returning is reachable — no reconnect, no further cycle; " +
 			"(R4) full truth tables: Change.IsRootDeletion = Path==\"\" ∧ Old≠nil ∧ New=nil; IsRootTypeChange = Path==\"\" ∧ Old≠nil ∧ New≠nil ∧ Old.Kind≠New.Kind; oneEndpointEmptiedRoot = all three are directories ∧ ¬(len(ancestor.Contents) < 2) ∧ (alpha empty XOR beta empty); containsRoot* return true exactly on an element satisfying the predicate. " +
+			"(R6, shared with C05.R1) the safety checks of the first cycle after a pause/restart/reconnect compare against the ancestor read back from the archive, so the archive saved at the end of a cycle holds exactly the tree Apply returned and EnsureValid(true) accepted (a saved ancestor that lags a cycle behind hides a one-sided emptying or a root deletion from them); " +
 			"Not decided: behaviour of running sessions over time; that the user-facing status survives until intervention beyond run()'s structure.",
 		Assumptions: []string{"the sentinel is compared by identity or errors.Is"},
 		Run:         runC11,
@@ -29,6 +30,9 @@ func runC11(c *eng.Ctx) {
 	if syn == nil {
 		return
 	}
+	// R6 (shared with C05.R1): the ancestor the checks compare against after a
+	// restart is the one saved last — it must be the tree just applied.
+	c05SaveRule(c, "R6")
 	var rec, emptied *ssa.Call
 	var delCalls, typeCalls []*ssa.Call
 	for _, call := range eng.Calls(syn) {
